@@ -212,8 +212,14 @@ LOOP:
 			if offset > hw {
 				break LOOP
 			}
+			// Messages without a key are always retained and must not
+			// shadow messages with an empty key.
+			key := ms.Message().Key()
+			if key == nil {
+				continue
+			}
 			curr, loaded := keyOffsets.LoadOrStore(
-				string(ms.Message().Key()), &keyOffset{offset: offset})
+				string(key), &keyOffset{offset: offset})
 			if loaded {
 				curr.(*keyOffset).set(offset)
 			}
